@@ -1,6 +1,6 @@
 """sys.monitoring probe: which lines of the anchored mechanism functions did the workload execute.
 
-Evidence only (plus: a mechanism function that exists but never ran makes the run inconclusive).
+Evidence only: it never influences a verdict (a refactoring may legitimately retire a helper).
 Each location returns DISABLE after its first hit, so the cost is negligible.
 """
 import importlib
